@@ -15,7 +15,7 @@ import re
 from typing import Dict, List, Optional, Set
 
 from ..cfg import analysis, decompose, N, E
-from ..lib import prov
+from ..lib import fold_str, prov
 from ..model import AnalysisError, call_attr, dotted, kwarg, unparse, walk_shallow, norm_stmt, names_in
 from .c13 import _ret_kind, _facts
 
@@ -476,9 +476,7 @@ def r14h(run):
     if isinstance(regs, (ast.List, ast.Tuple)):
         for e in regs.elts:
             if isinstance(e, ast.Call) and e.args:
-                p_ = _fold_str(e.args[0])
-                if p_ is None and isinstance(e.args[0], ast.Constant):
-                    p_ = e.args[0].value
+                p_ = fold_str(e.args[0], T.assigns, run.repo.module(TR).assigns)
                 if p_:
                     pats.append(p_)
     iso = [p_ for p_ in pats if "P" in _regex_literals(p_)]
